@@ -57,7 +57,8 @@ CtRot ==
   THEN (IF el >= 2 * cfg.P THEN [prev |-> 0, cur |-> 0, bs |-> now] ELSE [prev |-> ct.cur, cur |-> 0, bs |-> now])
   ELSE ct
 \* weighted < L  <=>  prev*(P-el) + cur*P < L*P (exact rationals). When both sides are equal
-\* and the previous bucket still weighs in, the code's f64 comparison may round either way.
+\* and the previous bucket still weighs in with a fractional weight (0 < el < P), the code's f64 comparison may round
+\* either way; on the bucket boundary itself (el = 0) the weight is exactly 1 and the comparison is exact.
 \* The wait estimate is floating point and irrelevant: "come back in w" for any 0 < w <= T,
 \* or reject.  In trace mode the wait is not needed (wakeAt is unobserved) and fixed to 0.
 CtWaits == IF MCMode THEN 1..cfg.T ELSE (IF cfg.T > 0 THEN {0} ELSE {})
@@ -69,7 +70,7 @@ CtTry ==
       yes == {<<"permit", 0, fx, lg, [c1 EXCEPT !.cur = @ + 1]>>}
       no  == {<<"wait", w, fx, lg, c1>> : w \in CtWaits} \cup {<<"reject", 0, fx, lg, c1>>}
   IN IF lhs < rhs THEN yes
-     ELSE IF lhs = rhs /\ c1.prev * (cfg.P - el) > 0 THEN yes \cup no
+     ELSE IF lhs = rhs /\ c1.prev * (cfg.P - el) > 0 /\ el > 0 THEN yes \cup no    \* (at el = 0 the weight is exactly 1: no rounding)
      ELSE no
 Try == IF cfg.win = "fixed" THEN FixedTry ELSE IF cfg.win = "log" THEN LogTry ELSE CtTry
 
